@@ -38,7 +38,8 @@ theorem setNotAvailable_s (w : W) : (setNotAvailable w).s =
 theorem startOffline_s (w : W) : (startOffline w).s = { w.s with aaCur := none } := rfl
 
 theorem executeRemovePublisher_s (w : W) : (executeRemovePublisher w).s =
-    { w.s with hkOnline := false, source := none, srcSub := none,
+    { w.s with
+      hkOnline := false, source := none, srcSub := none,
       aaCur := if w.s.conf.alwaysAvailable then none else w.s.aaCur,
       readers := if w.s.conf.alwaysAvailable then w.s.readers else [],
       hkAvail := if w.s.conf.alwaysAvailable then w.s.hkAvail else false,
@@ -56,10 +57,11 @@ theorem srcStart_s (w : W) : (srcStart w).s =
   · simp [h]
 
 theorem srcStop_s (w : W) : (srcStop w).s =
-    { w.s with srcRunning := false,
-               srcUp := if w.s.srcRunning then false else w.s.srcUp,
-               srcSub := if w.s.srcRunning then none else w.s.srcSub,
-               panicked := if w.s.srcRunning then w.s.panicked else true } := by
+    { w.s with
+      srcRunning := false,
+      srcUp := if w.s.srcRunning then false else w.s.srcUp,
+      srcSub := if w.s.srcRunning then none else w.s.srcSub,
+      panicked := if w.s.srcRunning then w.s.panicked else true } := by
   unfold srcStop
   rcases w with ⟨s, o⟩
   by_cases h : s.srcRunning = true
@@ -80,8 +82,8 @@ structure Inv (s : State) : Prop where
   valid : s.conf.valid = true
   np : s.panicked = false
   kPub : s.conf.kind = .publisher → s.source = none ∨ ∃ p, s.source = some (.pub p)
-  kStatic : s.conf.kind = .static → s.source = some .static
-  kRedirect : s.conf.kind = .redirect → s.source = some .redirect
+  kStatic : s.conf.kind = .static ↔ s.source = some .static
+  kRedirect : s.conf.kind = .redirect ↔ s.source = some .redirect
   hkA : s.hkAvail = s.stream.isSome
   aa : s.conf.alwaysAvailable = true → s.closed = false → s.stream.isSome = true
   cl : s.closed = true → s.stream = none ∧ s.readers = [] ∧ s.descHold = [] ∧ s.readHold = [] ∧
@@ -389,14 +391,15 @@ theorem inv_srcReady (ok : Bool) (w : W) (h : Inv w.s) (hc : w.s.closed = false)
         (cases h; grind)
 
 theorem onDemandStaticSourceStop_s (w : W) : (onDemandStaticSourceStop w).s =
-    { w.s with tSrcClose := if w.s.odSrc = .closing then false else w.s.tSrcClose, odSrc := .initial,
-               srcRunning := false,
-               srcUp := if w.s.srcRunning then false else w.s.srcUp,
-               srcSub := if w.s.srcRunning then none else w.s.srcSub,
-               panicked := if w.s.srcRunning then w.s.panicked else true } := by
+    { w.s with
+      tSrcClose := if w.s.odSrc = .closing then false else w.s.tSrcClose, odSrc := .initial,
+      srcRunning := false,
+      srcUp := if w.s.srcRunning then false else w.s.srcUp,
+      srcSub := if w.s.srcRunning then none else w.s.srcSub,
+      panicked := if w.s.srcRunning then w.s.panicked else true } := by
   unfold onDemandStaticSourceStop
   rcases w with ⟨s, o⟩
-  by_cases h1 : s.odSrc = .closing <;> simp_all [srcStop_s]
+  by_cases h1 : s.odSrc = .closing <;> by_cases h2 : s.srcRunning = true <;> simp_all [srcStop_s]
 
 theorem onDemandPublisherStop_s (w : W) : (onDemandPublisherStop w).s =
     { w.s with tPubClose := if w.s.odPub = .closing then false else w.s.tPubClose, odPub := .initial,
